@@ -154,10 +154,10 @@ type Exp struct {
 
 // Analysis of a (table, request) pair.
 type Analysis struct {
-	Claiming []int // services whose root claims the URL
-	Maximal  []int // maximal claiming roots (acceptable choices)
-	Exps     []Exp // one per maximal root; a single 404 if none claims
-	NonTrivial bool // some route path-matches or nearly does
+	Claiming   []int // services whose root claims the URL
+	Maximal    []int // maximal claiming roots (acceptable choices)
+	Exps       []Exp // one per maximal root; a single 404 if none claims
+	NonTrivial bool  // some route path-matches or nearly does
 }
 
 // Parsed caches the parsed form of a table.
